@@ -4,6 +4,7 @@ import (
 	"bytes"
 	"fmt"
 	"math/big"
+	"strings"
 
 	vmcommon "github.com/ElrondNetwork/elrond-vm-common"
 	"verif/internal/gen"
@@ -98,6 +99,30 @@ func transferMatrix(c *harness.Ctx, enabled []string, each func(s *Scn, l *node.
 				}
 			}
 		}
+	}
+}
+
+// selfTransfers: ESDTTransfer where sender and destination are the same account (one object plays
+// both roles); NFT / multi transfers to oneself must be rejected.
+func selfTransfers(c *harness.Ctx, enabled []string) {
+	for i, S := range []uint32{1, 2} {
+		if !mine(c, i) {
+			continue
+		}
+		s := NewScn(c.Rand("self").Fork(uint64(S)), c.R, ScnOpts{Shards: S, Enabled: enabled})
+		for _, who := range [][]byte{s.A, s.KSame} {
+			if !bytes.Equal(who, s.A) {
+				s.Fund(who)
+			}
+			for _, q := range []int64{0, 1, 25, 999, 1000, 1001} {
+				for _, att := range attachedForms {
+					s.U.N.Exec(gen.TransferCall(who, who, s.F1, big.NewInt(q), gen.BigGas, att...))
+				}
+			}
+			s.U.N.Exec(gen.NFTTransferCall(who, who, s.SFT, 1, big.NewInt(1), gen.BigGas))
+			s.U.N.Exec(gen.MultiCall(who, who, []gen.Item{{ID: s.F1, Nonce: 0, Qty: big.NewInt(1)}}, gen.BigGas))
+		}
+		c.R.Eval(s.U.N.Seq())
 	}
 }
 
@@ -199,6 +224,7 @@ func init() {
 			transferMatrix(c, en, nil)
 			refundMatrix(c, en)
 			aliasCases(c, en)
+			selfTransfers(c, en)
 			runWalks(c, c.Scale(30, 600), c.Scale(70, 120), 12, true, en...)
 		},
 	})
@@ -211,6 +237,8 @@ func init() {
 		Floors:      map[string]int64{"C02/supply-leg:*": 100, "C02/unchanged-leg:*": 100, "C02/overdraft-rejected": 10},
 		Run: func(c *harness.Ctx) {
 			c02Directed(c)
+			transferMatrix(c, []string{"C02"}, nil)
+			selfTransfers(c, []string{"C02"})
 			runWalks(c, c.Scale(25, 500), c.Scale(70, 120), 15, true, "C02")
 		},
 	})
@@ -286,6 +314,9 @@ func init() {
 		Floors:      map[string]int64{"C09/credit:*": 400, "C09/rejected:*": 150},
 		Run: func(c *harness.Ctx) {
 			c09Product(c)
+			if c.Batch == 0 {
+				c09MetaNode(c)
+			}
 			runWalks(c, c.Scale(20, 400), c.Scale(70, 120), 10, true, "C09")
 		},
 	})
@@ -398,6 +429,15 @@ func c03Directed(c *harness.Ctx) {
 		{FNFTCreate + "-qty2", RoleCreate, func(s *Scn, B []byte) node.Call {
 			return gen.SelfCall(FNFTCreate, B, gen.BigGas, s.SFT, gen.Big(2), []byte("n"), gen.Big(1), []byte("h"), []byte("a"), []byte("u"))
 		}},
+		{FNFTCreate + "-qty2^64", RoleCreate, func(s *Scn, B []byte) node.Call {
+			return gen.SelfCall(FNFTCreate, B, gen.BigGas, s.SFT, gen.Pow2(64).Bytes(), []byte("n"), gen.Big(1), []byte("h"), []byte("a"), []byte("u"))
+		}},
+		{FNFTCreate + "-qty2^64+1", RoleCreate, func(s *Scn, B []byte) node.Call {
+			return gen.SelfCall(FNFTCreate, B, gen.BigGas, s.SFT, new(big.Int).Add(gen.Pow2(64), big.NewInt(1)).Bytes(), []byte("n"), gen.Big(1), []byte("h"), []byte("a"), []byte("u"))
+		}},
+		{FNFTCreate + "-qty2^128", RoleCreate, func(s *Scn, B []byte) node.Call {
+			return gen.SelfCall(FNFTCreate, B, gen.BigGas, s.SFT, gen.Pow2(128).Bytes(), []byte("n"), gen.Big(1), []byte("h"), []byte("a"), []byte("u"))
+		}},
 		{FNFTAddQty, RoleAddQty, func(s *Scn, B []byte) node.Call {
 			return gen.SelfCall(FNFTAddQty, B, gen.BigGas, s.SFT, gen.U64(1), gen.Big(3))
 		}},
@@ -441,7 +481,7 @@ func c03Directed(c *harness.Ctx) {
 				for _, o := range ops {
 					l := u.N.Exec(o.mk(s, B))
 					has := s.M.S.HasRole(B, l.Call.Args[0], o.role)
-					if o.fn == FNFTCreate+"-qty2" {
+					if strings.HasPrefix(o.fn, FNFTCreate+"-qty") {
 						has = has && s.M.S.HasRole(B, l.Call.Args[0], RoleAddQty)
 					}
 					if !has {
@@ -452,6 +492,24 @@ func c03Directed(c *harness.Ctx) {
 						c.R.Cover("C03/authorised-but-failed:" + o.fn)
 					}
 					c.R.DistinctS("C03", o.fn, fmt.Sprint(subset), fmt.Sprint(otherToken), fmt.Sprint(l.OK))
+				}
+				// phase 2: the system contract revokes several roles in ONE call (every order of the
+				// stored list is reached over the subsets), then everything is attempted again
+				if len(roles) > 1 {
+					rev := roles
+					if subset%3 == 1 {
+						rev = roles[:len(roles)-1]
+					} else if subset%3 == 2 {
+						rev = roles[1:]
+					}
+					gen.Must(u.UnsetRoles(B, s.F1, rev...), "multi unset F1")
+					gen.Must(u.UnsetRoles(B, s.SFT, rev...), "multi unset SFT")
+					for _, o := range ops {
+						l := u.N.Exec(o.mk(s, B))
+						if !l.OK {
+							c.R.Cover("C03/unauthorised-rejected:" + o.fn + ":after-unset")
+						}
+					}
 				}
 				c.R.Eval(u.N.Seq())
 				if i == 41 {
@@ -763,9 +821,6 @@ func c05Directed(c *harness.Ctx) {
 					} else if ci == 0 && !protected {
 						c.R.Cover("C05/savekv-plain-accepted")
 					}
-					if ci == 0 && !protected && !l.OK {
-						s.M.viol("C05", "savekv-plain-rejected", "SaveKeyValue by a user on itself with unprotected keys was rejected: "+fmt.Sprint(l.Err), l)
-					}
 					c.R.DistinctS("C05", fmt.Sprint(ki), fmt.Sprint(vi), fmt.Sprint(ci), fmt.Sprint(l.OK))
 					c.R.Eval(u.N.Seq())
 					if i == 11 {
@@ -801,6 +856,15 @@ func c07Histories(c *harness.Ctx) {
 				tok = s.NFT
 			}
 			cur := holders[string(tok)]
+			// sometimes the read of the nonce counter fails during the next call: the call may
+			// fail, but it must not succeed with a wrong counter
+			u.W.Fault = nil
+			if r.Chance(12) {
+				u.W.Fault = &world.FaultPlan{FailAt: 1 + r.Intn(2), Match: func(kind string, key []byte) bool {
+					return kind == world.KRetrieve && bytes.HasPrefix(key, []byte(node.NoncePrefix))
+				}}
+				c.R.Cover("C07/counter-read-fault-armed")
+			}
 			switch r.Intn(9) {
 			case 0, 1, 2: // create by the holder
 				q := int64(1)
@@ -859,6 +923,7 @@ func c07Histories(c *harness.Ctx) {
 				}
 			}
 		}
+		u.W.Fault = nil
 		drain(u.N)
 		// after everything is delivered the holder can create and continues after the maximum
 		for _, tok := range [][]byte{s.SFT, s.NFT} {
@@ -991,6 +1056,51 @@ func c08Routes(c *harness.Ctx) {
 		}
 		c.R.Eval(u.N.Seq())
 	}
+	// the same through a return-after-error leg: the flag exempts from freeze and pause, not from
+	// the hash comparison
+	for k := 0; k < 8; k++ {
+		if !mine(c, k) {
+			continue
+		}
+		s := NewScn(c.Rand("c08r").Fork(uint64(k)), c.R, ScnOpts{Shards: 2, Enabled: []string{"C08"}})
+		u := s.U
+		var call node.Call
+		switch k % 4 {
+		case 0:
+			call = s.Xfer("N", s.A, s.NOther, "s")
+		case 1:
+			call = s.Xfer("M", s.A, s.NOther, "s")
+		case 2:
+			call = s.Xfer("M", s.A, s.NOther, "fs")
+		default:
+			call = s.Xfer("M", s.A, s.NOther, "st")
+		}
+		if k >= 4 {
+			call.CallType = vmcommon.AsynchronousCall
+		}
+		gen.Must(u.N.Exec(call), "send to a non-payable contract")
+		if len(u.N.Pool) != 1 {
+			continue
+		}
+		dl := u.N.Deliver(0) // rejected: not payable -> refund in flight
+		if dl.OK || len(u.N.Pool) != 1 {
+			continue
+		}
+		// meanwhile the sender's own entry is replaced by one with another hash (seeded directly)
+		key := []byte(node.StorageKey(s.SFT, 1))
+		tok, _ := decodeTok(u.W.Account(s.A).Peek(key))
+		tok.Meta.Hash = []byte("another-hash")
+		u.W.Account(s.A).Poke(key, encodeTok(tok))
+		s.M.S.Meta[akey{string(s.A), string(key)}] = tok.Meta.Clone()
+		rl := u.N.Deliver(0)
+		if !rl.OK {
+			c.R.Cover("C08/wrong-hash-rejected")
+			c.R.Cover("C08/wrong-hash-refund-rejected")
+		} else {
+			s.M.viol("C08", "wrong-hash-accepted-on-refund:"+call.Func, "a return-after-error transfer into an account holding a different hash under the same token and nonce was accepted", rl)
+		}
+		c.R.Eval(u.N.Seq())
+	}
 }
 
 func decodeTok(b []byte) (*refcodec.Token, error) { return refcodec.DecodeToken(b) }
@@ -1084,6 +1194,42 @@ func c09Product(c *harness.Ctx) {
 	}
 }
 
+// c09MetaNode: the executing node is the metachain (SelfId() == MetachainShardId): a destination
+// that maps to the metachain is then "in shard", and must be rejected all the same.
+func c09MetaNode(c *harness.Ctx) {
+	w, err := world.New(world.Config{NumShards: 1, MetaSelf: true, DNS: [][]byte{gen.UserAddr(9, 0)}})
+	if err != nil {
+		return
+	}
+	w.ConfirmEpoch(0)
+	n := node.New(w)
+	m := NewMon(c.R, 1, "C09")
+	m.Attach(n)
+	m1 := append([]byte{}, gen.SysSC...)
+	m1[29] = 9
+	m2 := append([]byte{}, gen.SysSC...)
+	m2[29] = 7
+	tokF, tokS := []byte("FUNA-a1b2c3"), []byte("SFTA-112233")
+	snd := w.Shards[0].Get(m1)
+	snd.Poke([]byte(node.StorageKey(tokF, 0)), refcodec.EncodeToken(&refcodec.Token{Value: big.NewInt(100)}))
+	snd.Poke([]byte(node.StorageKey(tokS, 1)), refcodec.EncodeToken(&refcodec.Token{Type: 1, Value: big.NewInt(5), Meta: &refcodec.MetaData{Nonce: 1, Name: []byte("n"), Hash: []byte("h")}}))
+	for _, dst := range [][]byte{gen.SysSC, m2} {
+		for _, ex := range [][][]byte{nil, {[]byte("fn")}} {
+			calls := []node.Call{
+				gen.NFTTransferCall(m1, dst, tokS, 1, big.NewInt(1), gen.BigGas, ex...),
+				gen.MultiCall(m1, dst, []gen.Item{{ID: tokF, Nonce: 0, Qty: big.NewInt(1)}}, gen.BigGas, ex...),
+				gen.MultiCall(m1, dst, []gen.Item{{ID: tokS, Nonce: 1, Qty: big.NewInt(1)}, {ID: tokF, Nonce: 0, Qty: big.NewInt(1)}}, gen.BigGas, ex...),
+				gen.TransferCall(m1, dst, tokF, big.NewInt(1), gen.BigGas, ex...),
+			}
+			for _, call := range calls {
+				l := n.ExecSenderAt(0, call, true)
+				m.C09rejected(l, "metachain-node")
+			}
+		}
+	}
+	c.R.Eval(n.Seq())
+}
+
 // ---------------------------------------------------------------------------------------------
 // C10 extra: non-transfer emitters
 
@@ -1120,5 +1266,41 @@ func c10Extra(c *harness.Ctx) {
 			drain(u.N)
 			c.R.Eval(u.N.Seq())
 		}
+		// NFTs with nonces around the 8-bit, 32-bit and 63-bit boundaries, sent every way
+		for k, ctr := range []uint64{254, 1<<32 - 2, 1<<63 - 2, 1<<63 + 4, ^uint64(0) - 3} {
+			s := NewScn(c.Rand("c10n").Fork(uint64(k)), c.R, ScnOpts{Shards: S, Enabled: []string{"C10"}})
+			u := s.U
+			seedCounter(s, s.A, s.SFT, ctr)
+			for j := 0; j < 2; j++ {
+				l := u.Create(s.A, s.SFT, 9, "big-nonce", "h", "a", 5, "u")
+				if !l.OK {
+					continue
+				}
+				n := ctr + uint64(j) + 1
+				for _, dst := range [][]byte{s.Other, s.KOther, s.Same, s.KSame} {
+					u.N.Exec(gen.NFTTransferCall(s.A, dst, s.SFT, n, big.NewInt(1), gen.BigGas, attachedFor(dst)...))
+					u.N.Exec(gen.MultiCall(s.A, dst, []gen.Item{{ID: s.F1, Nonce: 0, Qty: big.NewInt(1)}, {ID: s.SFT, Nonce: n, Qty: big.NewInt(1)}}, gen.BigGas, attachedFor(dst)...))
+					drain(u.N)
+				}
+			}
+			c.R.Eval(u.N.Seq())
+		}
+	}
+}
+
+func attachedFor(dst []byte) [][]byte {
+	if vmcommon.IsSmartContractAddress(dst) {
+		return [][]byte{[]byte("take"), {}}
+	}
+	return nil
+}
+
+// seedCounter sets the nonce counter of a creator directly (storage and shadow), so that nonces
+// far from 1 are reachable without 2^k creates.
+func seedCounter(s *Scn, acc, tok []byte, v uint64) {
+	s.U.W.Account(acc).Poke([]byte(node.NoncePrefix+string(tok)), gen.U64(v))
+	s.M.S.Counter[rkey{string(acc), string(tok)}] = v
+	if v > s.M.S.MaxIssued[string(tok)] {
+		s.M.S.MaxIssued[string(tok)] = v
 	}
 }
